@@ -98,6 +98,26 @@ func c03Scenarios(tier string) []*world.Scenario {
 		mk(fmt.Sprintf("partial-unowned-2clients/%s", kind), "partial-routing-unowned",
 			&world.Scenario{Nodes: Tgap(), Bound: b, OrderSites: order, Clients: []world.ClientSpec{cs0, cs1}})
 	}
+	// (a') the partially routable request sits BEHIND a request that is still pending, so its local reply is queued;
+	// both are flushed and recycled before the backend answers the orphan fragment
+	for _, kind := range []string{"mget", "del"} {
+		var r Req
+		if kind == "mget" {
+			r = MGetReq(keysA[0], gap)
+		} else {
+			r = DelReq(keysA[0], gap)
+		}
+		r.Expect = []byte(world.RErrUnknownSlot)
+		for _, split := range []bool{true, false} {
+			cs := ClientOf([]Req{GetReq(keysB[4]), r, GetReq(keysB[1]), GetReq(keysC[2])}, split)
+			mk(fmt.Sprintf("partial-unowned-behind-pending/%s/one=%v", kind, split), "partial-routing-unowned",
+				&world.Scenario{Nodes: Tgap(), Bound: b, OrderSites: order, Clients: []world.ClientSpec{cs}})
+			cs0 := ClientOf([]Req{GetReq(keysB[4]), r}, split)
+			cs1 := ClientOf([]Req{GetReq(keysB[1]), GetReq(keysC[2])}, false)
+			mk(fmt.Sprintf("partial-unowned-behind-pending-2clients/%s/one=%v", kind, split), "partial-routing-unowned",
+				&world.Scenario{Nodes: Tgap(), Bound: b, OrderSites: order, Clients: []world.ClientSpec{cs0, cs1}})
+		}
+	}
 	// (b) a multi-key request with one key on a node whose dial is refused
 	{
 		r := MGetReq(keysA[0], keysB[0])
